@@ -17,6 +17,9 @@ def main():
     for name in names:
         d = os.path.join(VERIF, "seeded", name)
         meta = json.load(open(os.path.join(d, "meta.json")))
+        if meta.get("not_kept"):
+            print(name, "skipped (recorded, not a live seed: %s)" % meta["not_kept"], flush=True)
+            continue
         if meta.get("neutralised_by_fix"):
             # a later repair of the repository removed the situation this change relied on: it no longer breaks anything
             print(name, "skipped (neutralised by fix %s)" % meta["neutralised_by_fix"], flush=True)
